@@ -96,7 +96,7 @@ theorem ghB1_spec (mem : List Region) (tp h : Nat) (s : State) (ctx : Ctx mem tp
     show greg (setFlags (setGreg sA 1 _) _) 2 = _
     rw [greg_setFlags, greg_setGreg_ne _ _ _ _ (by decide)]; exact hg2
   -- reverseBits of the block
-  obtain ⟨s2, hrun2, vo2, lt2, val2⟩ := rb_spec 16 20 0 1 rfl (Or.inr (Or.inr ⟨rfl, rfl, rfl⟩)) sB ctxB.lenV ctxB.v22 ctxB.v23 ctxB.v24
+  obtain ⟨s2, hrun2, vo2, lt2, val2⟩ := rb_spec 16 20 0 1 rfl (Or.inr ⟨by decide, rfl, rfl⟩) sB ctxB.lenV ctxB.v22 ctxB.v23 ctxB.v24
   have same2 : Same sB s2 := Same.ofVecOnly vo2 ctxB.lenV (by decide)
   have ctx2 := ctxB.same same2
   have h2_20 : vreg s2 20 = rb128 (unlanes 8 blk) := by
@@ -120,7 +120,7 @@ theorem ghB1_spec (mem : List Region) (tp h : Nat) (s : State) (ctx : Ctx mem tp
     rw [← hxval]; exact vreg_setVreg_eq s2 20 x (by rw [ctx2.lenV]; decide)
   -- multiply and reduce
   obtain ⟨s4, hrun4, vo4, lt4, val4⟩ := mulRed_spec 16 19 25 20 21 rfl
-    (Or.inr (Or.inr (Or.inr (Or.inr ⟨rfl, rfl, rfl, rfl⟩)))) s3 ctx3.lenV
+    (Or.inl ⟨rfl, rfl⟩) (by decide) (by decide) s3 ctx3.lenV
     (by intro l hl; have : l = 0 := by omega
         subst this; rw [ctx3.v19, lane128_0_of_lt _ ctx3.hlt]; exact ctx3.v25)
     (by intro l hl; rw [ctx3.v26]; exact poly64_lanes l (by omega))
